@@ -61,6 +61,7 @@ type BatchOut struct {
 	HealRun       int64            `json:"heal_run"`
 	HealRoundsMax int              `json:"heal_rounds_max"`
 	HealRoundsSum int64            `json:"heal_rounds_sum"`
+	HealRatioMax  float64          `json:"heal_ratio_max"`
 	LinChecked    int64            `json:"lin_checked"`
 	LinOps        int64            `json:"lin_ops"`
 	Inconclusive  int64            `json:"inconclusive"`
@@ -133,6 +134,11 @@ func RunBatch(property string, p Profile, verifSeed uint64, from, to int, mandat
 				out.HealConverged++
 				if r.Heal.Rounds > out.HealRoundsMax {
 					out.HealRoundsMax = r.Heal.Rounds
+				}
+				if r.Heal.Exempt == "" && r.Heal.Budget > 0 {
+					if q := float64(r.Heal.Rounds) / float64(r.Heal.Budget); q > out.HealRatioMax {
+						out.HealRatioMax = q
+					}
 				}
 			}
 			if r.Heal.Exempt != "" {
